@@ -108,6 +108,13 @@ def _special_stats(rng, stats, y, means):
         for _ in range(rng.randint(1, 3)):
             i, j = rng.sample(range(len(stats)), 2)
             stats[i] = dict(stats[j])
+    elif r < 0.24 and len(means) > 1:
+        # a UBM component that no frame of the training set was assigned to
+        dead = rng.randrange(len(means))
+        for i, st in enumerate(stats):
+            n, px, pxx = A(st["n"]), A(st["sum_px"]), A(st["sum_pxx"])
+            n[dead], px[dead], pxx[dead] = 0.0, 0.0, 0.0
+            stats[i] = dict(st, n=L(n), sum_px=L(px), sum_pxx=L(pxx))
     return stats
 
 
